@@ -6,9 +6,11 @@
    (oldest first beyond cap+1), the pollable updated only by run_notify.
    Definitions only.
 
-   [mq_fixed] = nni_msgq_aio_get tries the queue before nni_aio_start (the pinned
-   tree does not: DESIGN 8 / C15, every msgq-based raw socket); detected by
-   tools/gen_consts_d/c05_pubsub.py. *)
+   [mq_fixed] = nni_msgq_aio_get calls nni_aio_start only when the operation would
+   have to wait (another reader is ahead, or nothing is queued); the pinned tree
+   called it first (DESIGN 8 / C15, every msgq-based raw socket).
+   [rs_fixed] = nni_msgq_resize re-runs the queues and run_notify before unlocking
+   (the pinned tree did not).  Both detected by tools/gen_consts_d/c05_pubsub.py. *)
 From Coq Require Import List Arith NArith Bool.
 From NngV Require Import Proto.Common Proto.SubModel.
 Import ListNotations.
@@ -34,7 +36,7 @@ Fixpoint run_getq (q : list pmsg) (rq : list aioid) : list pmsg * list aioid * l
   | _, _ => (q, rq, [])
   end.
 
-Definition xsub_step (mq_fixed : bool) (s : xsub) (o : pop) : xsub * list pout :=
+Definition xsub_step (mq_fixed rs_fixed : bool) (s : xsub) (o : pop) : xsub * list pout :=
   match o with
   | PPipeStart p peer =>
       if negb (N.eqb peer PROTO_PUB) then (s, [Reject E_PROTO]) else (s, [TranRecv p])
@@ -52,7 +54,8 @@ Definition xsub_step (mq_fixed : bool) (s : xsub) (o : pop) : xsub * list pout :
                else (s, [Free m; TranRecv p])                                  (* tryput: NNG_EAGAIN, discarded *)
            end
   | PRecv _ a nb =>
-      if nb && (negb mq_fixed || match xs_q s with [] => true | _ => false end)
+      if nb && (negb mq_fixed || negb (match xs_rq s with [] => true | _ => false end)
+                              || match xs_q s with [] => true | _ => false end)
       then (s, [Complete a E_AGAIN None])                                      (* nni_aio_start refuses *)
       else
         let '(q2, rq2, outs) := run_getq (xs_q s) (xs_rq s ++ [a]) in
@@ -63,12 +66,17 @@ Definition xsub_step (mq_fixed : bool) (s : xsub) (o : pop) : xsub * list pout :
       then (run_notify (mkXsub (xs_q s) (xs_cap s) (remove_id a (xs_rq s)) (xs_closed s) (xs_recvable s)), [Complete a rv None])
       else (s, [])
   | PSetOpt None (ORecvBuf n) =>
-      (* sock_set_recvbuf -> nni_msgq_resize: the oldest go first while len > cap + 1; no run_notify *)
+      (* sock_set_recvbuf -> nni_msgq_resize: the oldest go first while len > cap + 1 *)
       if (8192 <? N.of_nat n)%N then (s, [OptRv E_INVAL])
       else
         let excess := length (xs_q s) - (n + 1) in
-        (mkXsub (skipn excess (xs_q s)) n (xs_rq s) (xs_closed s) (xs_recvable s),
-         map Free (firstn excess (xs_q s)) ++ [OptRv E_OK])
+        if rs_fixed then
+          let '(q2, rq2, outs) := run_getq (skipn excess (xs_q s)) (xs_rq s) in
+          (run_notify (mkXsub q2 n rq2 (xs_closed s) (xs_recvable s)),
+           map Free (firstn excess (xs_q s)) ++ outs ++ [OptRv E_OK])
+        else
+          (mkXsub (skipn excess (xs_q s)) n (xs_rq s) (xs_closed s) (xs_recvable s),
+           map Free (firstn excess (xs_q s)) ++ [OptRv E_OK])
   | PSetOpt None (OSendBuf n) =>
       if (8192 <? N.of_nat n)%N then (s, [OptRv E_INVAL]) else (s, [OptRv E_OK])
   | PSetOpt _ _ => (s, [OptRv E_NOTSUP])
